@@ -183,7 +183,7 @@ def build_data(rng, call, variant):
     if variant['data2d']:
         da.coords['tof'] = sc.arange('tof', 3.0, unit='us')
     if variant['name'] != 'position':
-        decoy = vals[::-1] * 3.0 + 5.0
+        decoy = vals[::-1] + np.array([7.0, 9000.0, -3.0])       # far away along y: a disk facing IT would be turned to y
         da.coords['position'] = sc.vectors(dims=['pix'], values=decoy, unit=call.unit)
     if variant['mask']:
         da.masks['m'] = sc.array(dims=['pix'], values=np.array([i % 7 == 3 for i in range(n)]))
